@@ -78,6 +78,7 @@ type Engine struct {
 	opaqueErr      types.Type
 	overlay        map[string][]byte
 	pureNames      map[string]bool
+	pureCache      sync.Map
 	loadSeconds    float64
 }
 
